@@ -1,6 +1,7 @@
 package props
 
 import (
+	"errors"
 	"bytes"
 	"fmt"
 	"testing"
@@ -123,9 +124,20 @@ func TestC22(t *testing.T) {
 				return true
 			})
 		}
+		// a quarter of the negotiating servers are client-facing servers that REJECT the
+		// client's ECH offer and go on with the outer hello: the exchange of settings is part of
+		// that handshake like of any other (it ends with ECHRejectionError afterwards)
+		echRejected := j.scenario == "ok" && i%4 == 3 && targetHasECH(j.t)
+		if echRejected {
+			scfg.EncryptedClientHelloKeys = peer.ECHServerKeys(true, peer.NewECHKey(3, "public.example.test", []uint16{1, 3}, 32))
+			r.Count("alps_with_rejected_ech_offer", 1)
+		}
 		extra := func(c *tls.Config) {
 			if j.settings != "absent" {
 				c.ApplicationSettings = map[string][]byte{j.proto: clientSettings, "other/1": {9, 9}}
+			}
+			if echRejected {
+				c.EncryptedClientHelloConfigList = peer.ECHConfigList(gridECHKey())
 			}
 		}
 		h := RunCase(j.t, GridCase{Server: scfg, Plan: plan}, "example.test", extra, peer.Opts{})
@@ -139,6 +151,17 @@ func TestC22(t *testing.T) {
 		obs := plan.Obs()
 		switch j.scenario {
 		case "ok":
+			var rej *tls.ECHRejectionError
+			if echRejected && errors.As(h.ClientErr, &rej) {
+				// the handshake itself went through: what the server saw is judged below
+				if !obs.ClientEESeen {
+					sig["kind"] = "client_ee_missing"
+					r.Violation(sig, j.t.Name+": ECH rejected, ALPS negotiated with the outer hello: server saw no client EncryptedExtensions", rep)
+				} else {
+					r.Count("client_ee_seen_after_ech_rejection", 1)
+				}
+				return
+			}
 			if !h.OK() {
 				sig["kind"] = "alps_handshake_failed"
 				r.Violation(sig, fmt.Sprintf("%s: handshake with ALPS (code point %d, protocol %q, client settings %s) failed: %s", j.t.Name, j.cp, j.proto, j.settings, h.ErrString()), rep)
